@@ -1,5 +1,10 @@
 SPECIFICATION Spec
-CONSTANT MaxBreaches = 3
+CONSTANTS
+  MaxBreaches = 3
+  MaxSteps = 1
+  Acts = {}
 INVARIANTS Sound SoftNeverError Complete
+PROPERTIES HistoryFree RepairRestores
+VIEW View
 ACTION_CONSTRAINT Emit
 CHECK_DEADLOCK FALSE
